@@ -3,7 +3,7 @@
 // Rules (DESIGN.md §3 C03), files c03.go (registration, shared helpers), c03_header.go
 // (R-C03-1..3), c03_request.go (R-C03-4, R-C03-5), c03_framing.go (R-C03-6),
 // c03_writeout.go (R-C03-7), c03_cache.go (R-C03-8),
-// c03_reader.go (R-C03-9).
+// c03_reader.go (R-C03-9), c03_util.go (scope over helpers, loop forms, anchors by role).
 //
 // Genuine defects found on the unchanged tree (all R-C03-6, demonstrated end to end, fixes in
 // /tmp/vw/C03/out/fix-{1,2,3}.diff; the rule stays as it is):
@@ -213,10 +213,21 @@ type c03def struct {
 
 // c03defs collects the assignments to obj inside the function (function literals included).
 func c03defs(f *flow.Func, obj types.Object) []c03def {
-	var out []c03def
 	if obj == nil {
 		return nil
 	}
+	if s := c03cur; s != nil && s.has(f) {
+		var out []c03def
+		for _, g := range s.fns {
+			out = append(out, c03defs1(g, obj)...)
+		}
+		return out
+	}
+	return c03defs1(f, obj)
+}
+
+func c03defs1(f *flow.Func, obj types.Object) []c03def {
+	var out []c03def
 	ast.Inspect(f.Body, func(n ast.Node) bool {
 		switch s := n.(type) {
 		case *ast.AssignStmt:
@@ -291,12 +302,22 @@ func c03isHeaderType(t types.Type) bool {
 // c03canon follows identity-like single definitions of a local variable
 // (x := y, x := y.(T), h := resp.HTTPHeader() for header-typed h) to the variable it stands for.
 func c03canon(f *flow.Func, obj types.Object) types.Object {
-	for depth := 0; depth < 6 && obj != nil; depth++ {
+	for depth := 0; depth < 10 && obj != nil; depth++ {
 		v, ok := obj.(*types.Var)
 		if !ok || v.IsField() || v.Pkg() == nil || v.Parent() == v.Pkg().Scope() {
 			return obj
 		}
 		defs := c03defs(f, obj)
+		if len(defs) == 0 {
+			// a parameter/receiver of a helper in the current scope stands for what it is bound to
+			if s := c03cur; s != nil && s.has(f) {
+				if b := s.bind[obj]; b != nil && b != obj {
+					obj = b
+					continue
+				}
+			}
+			return obj
+		}
 		if len(defs) != 1 || defs[0].rhs == nil {
 			return obj
 		}
@@ -343,6 +364,20 @@ func c03rootOf(f *flow.Func, e ast.Expr) types.Object { return c03canon(f, c03ro
 func c03hdrOp(f *flow.Func, call *ast.CallExpr) (string, ast.Expr) {
 	sel, ok := ast.Unparen(call.Fun).(*ast.SelectorExpr)
 	if !ok {
+		// a method value held in a local: set := h.Set; set(k, v)
+		if id, isID := ast.Unparen(call.Fun).(*ast.Ident); isID {
+			if defs := c03defs(f, c03obj(f, id)); len(defs) == 1 && defs[0].rhs != nil {
+				if msel, ok := defs[0].rhs.(*ast.SelectorExpr); ok {
+					if sl := f.Info.Selections[msel]; sl != nil && sl.Kind() == types.MethodVal {
+						if fo, ok := sl.Obj().(*types.Func); ok {
+							if sig, _ := fo.Type().(*types.Signature); sig != nil && sig.Recv() != nil && c03isHeaderType(sig.Recv().Type()) {
+								return fo.Name(), msel.X
+							}
+						}
+					}
+				}
+			}
+		}
 		return "", nil
 	}
 	fo, ok := f.Callee(call).(*types.Func)
@@ -447,17 +482,22 @@ func c03empty(f *flow.Func, st *flow.State, e ast.Expr) flow.Val {
 }
 
 // c03iter checks "every iteration of loop does X unless excused" inside an engine run.
-// Call block() from OnBlock and mark() when X happens.
+// Call block() from OnBlock and mark() when X happens. loop is a range or a for statement.
 type c03iter struct {
-	loop   *ast.RangeStmt
+	loop   ast.Stmt
 	id     string
 	excuse func(st *flow.State) bool
 	iters  int
 	bad    *flow.State
 }
 
-func newC03iter(f *flow.Func, loop *ast.RangeStmt, excuse func(st *flow.State) bool) *c03iter {
+func newC03iter(f *flow.Func, loop ast.Stmt, excuse func(st *flow.State) bool) *c03iter {
 	return &c03iter{loop: loop, id: f.Pos(loop.Pos()), excuse: excuse}
+}
+
+// c03atHead: the block is the head of loop (evaluated before every iteration).
+func c03atHead(b *cfg.Block, loop ast.Stmt) bool {
+	return b.Stmt == loop && (b.Kind == cfg.KindRangeLoop || b.Kind == cfg.KindForLoop)
 }
 
 func (it *c03iter) block(st *flow.State, b *cfg.Block) {
@@ -466,10 +506,10 @@ func (it *c03iter) block(st *flow.State, b *cfg.Block) {
 	}
 	in, done := "ev:in:"+it.id, "ev:done:"+it.id
 	switch b.Kind {
-	case cfg.KindRangeBody:
+	case cfg.KindRangeBody, cfg.KindForBody:
 		st.Set(in, flow.True)
 		st.Set(done, flow.False)
-	case cfg.KindRangeLoop:
+	case cfg.KindRangeLoop, cfg.KindForPost, cfg.KindForLoop:
 		if st.Is(in, flow.True) {
 			it.iters++
 			if !st.Is(done, flow.True) && (it.excuse == nil || !it.excuse(st)) && it.bad == nil {
@@ -487,26 +527,20 @@ func (it *c03iter) mark(st *flow.State) {
 	}
 }
 
-// c03chain checks "every iteration of outer (and of each range loop nested between outer and
+// c03chain checks "every iteration of outer (and of each loop nested between outer and
 // target) reaches target unless excused": an iteration of an outer loop is satisfied by
-// reaching the header of the next inner loop, an iteration of the innermost by mark().
+// reaching the head of the next inner loop, an iteration of the innermost by mark().
 type c03chain struct {
-	loops []*ast.RangeStmt
+	loops []ast.Stmt
 	iters []*c03iter
-	ok    bool // false if a non-range loop sits between outer and target
+	ok    bool
 }
 
-func newC03chain(f *flow.Func, outer *ast.RangeStmt, target ast.Node, excuse func(st *flow.State) bool) *c03chain {
+func newC03chain(f *flow.Func, outer ast.Stmt, target ast.Node, excuse func(st *flow.State) bool) *c03chain {
 	ch := &c03chain{ok: true}
-	for _, l := range enclosingLoops(outer, target) {
-		if r, ok := l.(*ast.RangeStmt); ok {
-			ch.loops = append(ch.loops, r)
-		} else {
-			ch.ok = false
-		}
-	}
+	ch.loops = append(ch.loops, enclosingLoops(outer, target)...)
 	if len(ch.loops) == 0 || ch.loops[0] != outer {
-		ch.loops = append([]*ast.RangeStmt{outer}, ch.loops...)
+		ch.loops = append([]ast.Stmt{outer}, ch.loops...)
 	}
 	for i, l := range ch.loops {
 		if i == len(ch.loops)-1 {
@@ -521,7 +555,7 @@ func newC03chain(f *flow.Func, outer *ast.RangeStmt, target ast.Node, excuse fun
 func (ch *c03chain) block(st *flow.State, b *cfg.Block) {
 	for i, it := range ch.iters {
 		it.block(st, b)
-		if i > 0 && b.Stmt == it.loop && b.Kind == cfg.KindRangeLoop {
+		if i > 0 && c03atHead(b, it.loop) {
 			ch.iters[i-1].mark(st)
 		}
 	}
